@@ -15,7 +15,7 @@ MAP_TRACED = ("/tracklib/algo/mapping.py", "/tracklib/algo/dynamics.py")
 C06_OPS = ("dist", "dist_all", "all_pairs", "prepare", "prepared")
 C07_OPS = ("path", "path_multi", "forward", "backward")
 C10_OPS = ("map", "remap", "map_span")
-OTHER_OPS = ("add_edge", "add_node", "reload", "index", "simplify", "sub_network", "set_weight", "save_prep", "load_prep", "rescale", "abs_again", "set_routing", "save_index", "load_index", "break_weight", "inspect_edge", "annotate_edges", "load_copy", "geo_roundtrip")
+OTHER_OPS = ("add_edge", "add_node", "noise_net", "reload", "index", "simplify", "sub_network", "set_weight", "save_prep", "load_prep", "rescale", "abs_again", "set_routing", "save_index", "load_index", "break_weight", "inspect_edge", "annotate_edges", "load_copy", "geo_roundtrip")
 
 
 def _wchoice(r, pairs):
@@ -456,6 +456,8 @@ class NetWorld(World):
                     # search bounded by the known distance of the target, or by a little more
                     "bound": r.choice([None, None, None, 0, 0, 0.25, 2.0])}
         # C10: needs abs_curv on every edge, an index and prepared distances
+        if self.cfg["sessions"] > 1 and self.cfg["road"] and r.random() < 0.03:
+            return {"op": "noise_net", "s": s, "from": (s + 1) % self.cfg["sessions"], "seed": r.randrange(10 ** 6)}
         if (m["index"] is None or m["prepared"] is None) and m["edges"] and r.random() < 0.15:
             # ... which the user sometimes forgets: the matching is requested on a network that is not ready
             ob = self._gen_track(r, m)
@@ -1203,6 +1205,12 @@ class NetWorld(World):
             return self._unexpected("C06", exc, "network reload")
         self.real[st.get("s", 0)] = new
         self._drop_lone(m)
+        if m.get("ragged"):
+            # roads end a few micrometres from the junction they were registered at: a file keeps the road
+            # ends only, the junctions of the network read back are where the first road mentioning them ends
+            for v in m["nodes"]:
+                c = new.getNode(v).coord
+                m["nodes"][v] = [c.getX(), c.getY()]
         if with_w:
             self.probe("network_loaded_from_a_file_with_weights")
             m.update({"fw": None, "index": None, "prepared": None, "ptable": None, "grown_since_prepare": False,
@@ -1249,6 +1257,72 @@ class NetWorld(World):
             del self.files[k]
         getattr(self, "idx_files", {}).pop("/sim/index_%d.pkl" % s, None)
         self.probe("two_networks_read_from_the_same_file")
+
+    def op_noise_net(self, st):
+        """A second user simulates a degraded copy of the other session's road network: every edge
+        geometry goes through stochastics.noise() with both ends pinned, the abscissas are computed
+        on the result (as the user would: computeAbsCurv), and a network of his own is built from
+        those lines.  What noise() draws is not judged (the new vertices are adopted); the other
+        session's network must not move, and matchings on the new network are judged as usual."""
+        import numpy
+        from tracklib.core import Network, Node, Edge, ENUCoords
+        from tracklib.core.kernel import GaussianKernel
+        from tracklib.algo import stochastics as sto
+        from tracklib.algo.cinematics import computeAbsCurv
+        s, src = st.get("s", 0), st["from"]
+        if src == s or src not in self.model or s not in self.real:
+            raise Skip()
+        net0, m0 = self.real[src], self.model[src]
+        if not m0["edges"] or not self.cfg["road"] or not m0["all_abs"] or m0.get("broken") is not None \
+                or len(m0["edges"]) > 12 or any(len(e["pts"]) > 20 for e in m0["edges"]):
+            raise Skip()
+        lines = []
+        for k, e in enumerate(m0["edges"]):
+            g = net0.getEdge(e["id"]).geom
+            numpy.random.seed(st["seed"] + k)
+            nz, exc = self.call(sto.noise, g, [0.2], [GaussianKernel(3.0)], sto.DISTRIBUTION_NORMAL,
+                                sto.MODE_DISTANCE_LINEAR, False, False, [0, len(e["pts"]) - 1], sto.MODE_DIRECTION_XY)
+            if exc is None:
+                _, exc = self.call(computeAbsCurv, nz)
+            if exc is not None:
+                if isinstance(exc, Exception):
+                    raise Skip()            # (which lines noise() accepts is not this world's subject)
+                return self._unexpected("C10", exc, "noise() on an edge geometry")
+            lines.append(nz)
+        new = Network()
+        for e, nz in zip(m0["edges"], lines):
+            ed = Edge(e["id"], nz)
+            ed.orientation = e["o"]
+            ed.weight = nz.length()
+            pa, pb = m0["nodes"][e["s"]], m0["nodes"][e["t"]]
+            _, exc = self.call(new.addEdge, ed, Node(e["s"], ENUCoords(pa[0], pa[1], 0)),
+                               Node(e["t"], ENUCoords(pb[0], pb[1], 0)))
+            if exc is not None:
+                return self._unexpected("C06", exc, "addEdge of a noised geometry")
+        edges = []
+        for e, nz in zip(m0["edges"], lines):
+            pts = [[o.position.getX(), o.position.getY()] for o in nz]
+            edges.append({"id": e["id"], "s": e["s"], "t": e["t"], "o": e["o"], "w": float(nz.length()), "pts": pts})
+        used = []
+        for e in edges:
+            for v in (e["s"], e["t"]):
+                if v not in used:
+                    used.append(v)
+        self.real[s] = new
+        nodes = {}
+        for v in used:                  # pinned ends keep a residual of a micrometre: junction positions as registered
+            c = new.getNode(v).coord
+            nodes[v] = [c.getX(), c.getY()]
+        self.model[s] = {"nodes": nodes, "edges": edges, "fw": None, "index": None,
+                         "prepared": None, "ptable": None, "grown_since_prepare": False, "exact": False,
+                         "all_abs": True, "ragged": True}
+        for k in [k for k in self.tracks if k[0] == s]:
+            del self.tracks[k]
+        for k in [k for k, ff in getattr(self, "files", {}).items() if ff["owner"] == s]:
+            del self.files[k]
+        getattr(self, "idx_files", {}).pop("/sim/index_%d.pkl" % s, None)
+        getattr(self, "netfiles", {}).pop(s, None)
+        self.probe("network_built_from_noised_geometries")
 
     def op_geo_roundtrip(self, st):
         """The network is converted to geographic coordinates, written, read back as a
